@@ -145,6 +145,17 @@ def gen(params):
                             core = fill == "a" and delta in (-1, 0, 1) and (k == 1 or delta == 0)
                             if core or rnd.random() < params.get("keep", 1.0):
                                 yield {"kind": kind, "name": name, "in": T(fill * n + tok + "b")}
+    elif mode == "texts_file":       # texts dumped by TLC x the given configurations (expanded lazily, never materialised)
+        import json as _json
+        texts = _json.loads(open(params["texts_file"]).read())
+        maxitems = params.get("max_len")
+        for cps in texts:
+            if maxitems is not None and len(cps) > maxitems:
+                continue
+            for name in params.get("quoters", []):
+                yield {"kind": "quote", "name": name, "in": cps}
+            for name in params.get("unquoters", []):
+                yield {"kind": "unquote", "name": name, "in": cps}
     elif mode == "calls":
         yield from params["calls"]
     else:
